@@ -623,6 +623,7 @@ class Engine:
         coll = self.ev(s.iter, st)
         itr = self.make_iter(coll, st, s)
         st.ghost[f"entry{ordn}"] = {k: v.clone() for k, v in st.heap.items()}     # heap when the loop is entered
+        st.ghost[f"entryenv{ordn}"] = dict(st.env)                                # locals when the loop is entered
         g0 = itr.start()
         cterm = getattr(getattr(itr, "coll", None), "t", None)
         g0["coll"] = cterm
@@ -661,6 +662,7 @@ class Engine:
                 outs.append((kind, s2, p))
         itr.finished(ex, gh)
         ex.ghost[f"loop{ordn}"] = gh
+        ex.ghost[f"exitenv{ordn}"] = dict(ex.env)        # locals when the loop is left normally (c.exit_local)
         outs.append((NEXT, ex, None))
         return outs
 
@@ -718,8 +720,9 @@ class Engine:
                 self.assign(target.value, nb, st)
         elif isinstance(target, ast.Attribute):
             base = self.ev(target.value, st)
-            if isinstance(base, Ref):
-                self.reg.model_for(base).setattr(self, st, base, target.attr, v)
+            m = self.reg.model_for(base)
+            if isinstance(base, Ref) or (m is not None and isinstance(base.ty, THelper) and base.ty.kind.startswith("module:")):
+                m.setattr(self, st, base, target.attr, v)
             else:
                 raise OutOfSubset(f"attribute store on {base.ty}")
         else:
